@@ -346,6 +346,38 @@ impl Ctx {
     }
 }
 
+impl Ctx {
+    /// Pretty-print a term (depth-limited), for diagnostics and violation reports.
+    pub fn show(&self, x: Arg, depth: u32) -> String {
+        match x {
+            Arg::K(b) => format!("{}", f32::from_bits(b)),
+            Arg::N(i) => {
+                let n = self.nodes[i as usize];
+                if n.op == Op::Var {
+                    return self.vars.iter().find(|v| v.node == i).map(|v| v.name.clone()).unwrap_or_default();
+                }
+                if depth == 0 {
+                    return format!("#{}", i);
+                }
+                let a = self.show(n.a, depth - 1);
+                match n.op {
+                    Op::Add => format!("({} + {})", a, self.show(n.b, depth - 1)),
+                    Op::Sub => format!("({} - {})", a, self.show(n.b, depth - 1)),
+                    Op::Mul => format!("({} * {})", a, self.show(n.b, depth - 1)),
+                    Op::Div => format!("({} / {})", a, self.show(n.b, depth - 1)),
+                    Op::Rem => format!("({} % {})", a, self.show(n.b, depth - 1)),
+                    Op::Min => format!("min({}, {})", a, self.show(n.b, depth - 1)),
+                    Op::Max => format!("max({}, {})", a, self.show(n.b, depth - 1)),
+                    Op::Abs => format!("|{}|", a),
+                    Op::Neg => format!("-{}", a),
+                    Op::Round => format!("round({})", a),
+                    Op::Var => unreachable!(),
+                }
+            }
+        }
+    }
+}
+
 // ------------------------------------------------------------------ intervals
 
 fn fmin4(p: [f32; 4]) -> f32 {
@@ -748,6 +780,18 @@ fn simplify(c: &Ctx, op: Op, a: Arg, b: Arg) -> Option<Arg> {
             if is_k(b, 0.0) && !ia.nz && !ia.nan {
                 return Some(a);
             }
+            // x + (0 * y) = x for finite y and x that is neither NaN nor -0  (rule addzero)
+            for (x, z, ix) in [(a, b, &ia), (b, a, &ib)] {
+                if let Arg::N(nz) = z {
+                    let n = c.nodes[nz as usize];
+                    if n.op == Op::Mul && (is_k(n.a, 0.0) || is_k(n.b, 0.0)) {
+                        let y = if is_k(n.a, 0.0) { n.b } else { n.a };
+                        if c.ivof(y).finite() && !ix.nan && !ix.nz {
+                            return Some(x);
+                        }
+                    }
+                }
+            }
         }
         Op::Sub => {
             // x - (+0) = x for every x
@@ -761,7 +805,8 @@ fn simplify(c: &Ctx, op: Op, a: Arg, b: Arg) -> Option<Arg> {
             }
             // decided by intervals (no NaN, no zero-sign ambiguity)
             if !ia.nan && !ib.nan {
-                let strictly = |x: &Iv, y: &Iv| x.hi < y.lo || (x.hi <= y.lo && !(x.hi == 0.0));
+                // x <= y everywhere; equal values have equal bits unless they are zeros of different sign
+                let strictly = |x: &Iv, y: &Iv| x.hi < y.lo || (x.hi <= y.lo && (x.hi != 0.0 || (!x.nz && !y.nz)));
                 if op == Op::Min {
                     if strictly(&ia, &ib) {
                         return Some(a);
@@ -1019,6 +1064,25 @@ fn refine(c: &mut Ctx, cmp: Cmp, a: Arg, b: Arg, side: bool) {
             // a > b
             na.lo = na.lo.max(next_up(ib.lo));
             nb.hi = nb.hi.min(next_down(ia.hi));
+        }
+        (Cmp::Eq, false) if !ia.nan && !ib.nan => {
+            // a != b: an end point equal to a point value on the other side is excluded
+            if ib.lo == ib.hi {
+                if ia.lo == ib.lo {
+                    na.lo = next_up(ia.lo);
+                }
+                if ia.hi == ib.lo {
+                    na.hi = next_down(ia.hi);
+                }
+            }
+            if ia.lo == ia.hi {
+                if ib.lo == ia.lo {
+                    nb.lo = next_up(ib.lo);
+                }
+                if ib.hi == ia.lo {
+                    nb.hi = next_down(ib.hi);
+                }
+            }
         }
         _ => {}
     }
